@@ -1,6 +1,7 @@
 //! tzmon: runtime monitors for tz-rs (properties C01..C20 of /verif/properties.jsonl).
 pub mod core;
 pub mod facade;
+pub mod fuzzcase;
 pub mod gen;
 pub mod model;
 pub mod mon;
